@@ -1,0 +1,17 @@
+//go:build verif
+
+package dao
+
+// Contracts for the verif build tag (comment-only; see /verif/DESIGN.md).
+
+//@ prop C04
+//@ import storage github.com/nspcc-dev/neo-go/pkg/core/storage
+
+// A private layer starts with nothing of its own: an empty private store on top of the
+// current one and an empty native-contract cache that reads through to this DAO. Whatever
+// a callee does in it can therefore be dropped by dropping the layer.
+//@ func (*Simple).GetPrivate
+//@ panics-if dao == nil
+//@ ensures[fresh] result != nil && fresh(result) && result.private && result.nativeCachePS == dao
+//@ ensures[store] result.Store != nil && fresh(result.Store) && result.Store.private && result.Store.ps == storage.Store(dao.Store) && len(result.Store.MemoryStore.mem) == 0 && len(result.Store.MemoryStore.stor) == 0
+//@ ensures[cache] result.nativeCache != nil && fresh(result.nativeCache) && len(result.nativeCache) == 0
